@@ -425,6 +425,11 @@ def run(chk):
         chk.guard("R18.1", "semantic", check_semantic, chk, F)
     if not ONLY or "6" in ONLY:
         chk.guard("R18.6", "concrete", check_concrete, chk, F)
+    if not ONLY or "8" in ONLY:
+        # the miniscript-side twin of check_timelocks: which children's time-lock summaries a fragment joins on one path
+        # (lift_check and the sane parser refuse scripts by it; shared with C12)
+        from . import limits as _limits
+        chk.guard("R18.8", "timelock-composition", _limits.check_timelock_composition, chk, F, "R18.8")
     if not ONLY or "7" in ONLY:
         # every policy function of this property folds over rtl_post_order_iter / pre_order_iter, evaluated above through
         # the analyser's model of them: the model is the source's behaviour (rule shared with C20)
